@@ -43,6 +43,10 @@ type Chain struct {
 	ChainID   uint64
 	// Calls answers eth_call by 4-byte selector (hex) → ABI-encoded return data.
 	Calls map[string][]byte
+	// CallHook, if set, is asked first (after the gate is released): it sees the whole call message and
+	// the block argument, so the answer can depend on the arguments and on the chain state at the
+	// visible tip; ok=false falls through to Calls.
+	CallHook func(call ethereum.CallMsg, blockNumber *big.Int) (ret []byte, ok bool)
 }
 
 func New() *Chain {
@@ -131,7 +135,7 @@ type Client struct {
 func NewClient(c *Chain, s *act.Sched, comp string) *Client { return &Client{C: c, S: s, Comp: comp} }
 
 func (cl *Client) gate(ctx context.Context, op, arg string, info any) error {
-	d := cl.S.Enter(cl.Comp, op, arg, info)
+	d := cl.S.EnterCtx(ctx, cl.Comp, op, arg, info)
 	if d.Err != nil {
 		return d.Err
 	}
@@ -284,6 +288,11 @@ func (cl *Client) CallContract(ctx context.Context, call ethereum.CallMsg, block
 	}
 	if err := cl.gate(ctx, "CallContract", sel, call); err != nil {
 		return nil, err
+	}
+	if cl.C.CallHook != nil {
+		if r, ok := cl.C.CallHook(call, blockNumber); ok {
+			return r, nil
+		}
 	}
 	if r, ok := cl.C.Calls[sel]; ok {
 		return r, nil
